@@ -832,7 +832,8 @@ func checkGate(c *Ctx, rule string, ms map[string]*fsmx.Machine, gs gateSpec) {
 	}
 	// status gate edges: Status == await on the participant obtained via QuorumGet(request.ParticipantId)
 	var gate []ssax.Edge
-	for _, sc := range ssax.StatusCondsUnder(fn, assume) {
+	asm := ssax.Assumption{Cut: assume, KeyVal: inEv, KeyConst: gs.event}
+	for _, sc := range ssax.StatusCondsUnderA(fn, asm) {
 		if sc.K == await && strings.Contains(sc.Base, "QuorumGet(") && strings.Contains(sc.Base, ".ParticipantId") {
 			gate = append(gate, sc.EqEdge)
 		}
@@ -862,7 +863,7 @@ func checkGate(c *Ctx, rule string, ms map[string]*fsmx.Machine, gs gateSpec) {
 		k := sprintf("%s:status-store#%d", key, n)
 		valuePinned := false
 		if ss.K == -1 {
-			if kk, ok := ssax.ConstIntUnder(fn, ss.Store.Val, assume); ok {
+			if kk, ok := ssax.ConstIntUnderA(fn, ss.Store.Val, asm); ok {
 				ss.K, valuePinned = kk, true
 			}
 		}
